@@ -817,7 +817,9 @@ class MyPyAstVisitor:
                 and not node.is_inferred
             ):
                 if unanalyzed_type is not None and hasattr(unanalyzed_type, "args"):
-                    attribute_type.args = unanalyzed_type.args
+                    # Only needed for the illegal multi argument form "list[int, str]", see _parse_parameter_data
+                    if len(unanalyzed_type.args) >= 2:
+                        attribute_type.args = unanalyzed_type.args
                 else:  # pragma: no cover
                     raise AttributeError("Could not get argument information for attribute.")
 
